@@ -72,10 +72,13 @@ MANUAL_PAGES = {
 }
 
 
-def accepted(site, phase):
-    """-> dict kind -> True | 'maybe'   (kind 'abs' = an absolute path / a symbol whose value is absolute)"""
+def accepted(site, phase, bug=False):
+    """-> dict kind -> True | 'maybe'   (kind 'abs' = an absolute path / a symbol whose value is absolute)
+    bug: defect model KF-C12-3 (dir-contents accepts the home directory although its help page does not list it)"""
     conf = SITES[site]
     acc = {k: True for k in conf['acc']}
+    if bug and site == 'dir-contents':
+        acc['home'] = 'KF-C12-3'
     for k in conf.get('maybe', []):
         acc[k] = 'maybe'
     if phase in POST_ACT:
@@ -95,7 +98,9 @@ ACT_HOME_DIRS = ['cs', 'cs/ahd', 'hd2']  # conf['act_home'] likewise: `act-home 
 HOME_CONF_TEXT = [None, 'hd', '../hd2']
 ACT_HOME_CONF_TEXT = [None, 'ahd', '../hd2']
 INC_DIR = 'cs/inc'
-H_BASES = ['cs', 'cs/hd', 'cs/ahd', 'hd2', 'cs/inc']
+DEEP_DIR = 'cs/inc/deep'
+HERE_DIRS = [CASE_DIR, INC_DIR, DEEP_DIR]  # def op 'inc' = 0: in the case file, 1: in inc/dN.xly, 2: in inc/deep/dN.xly
+H_BASES = ['cs', 'cs/hd', 'cs/ahd', 'hd2', 'cs/inc', 'cs/inc/deep']
 X_BASES = ['']
 SB_BASES = ['act', 'tmp', 'act/w1', 'act/w1/w3', 'tmp/w2', 'result']
 CD_BASES = ['act', 'tmp', 'act/w1', 'act/w1/w3', 'tmp/w2']  # directories that hold the whole fixture tree T
@@ -179,7 +184,7 @@ class PV:
 
 
 def is_abs(name):
-    return name.startswith('/') or name.startswith('{HOME}') or name.startswith('{ROOT}')
+    return name.startswith(('/', '{HOME}', '{ROOT}', '{SB}'))
 
 
 def lexnorm(path):
@@ -246,9 +251,11 @@ class State:
         self.cwd = '{SB}/act'
         self.paths = {n: PV(k) for n, k in BUILTINS.items()}
         self.strs = {}
+        self.str_pathref = set()  # string symbols whose value contains a reference to a path symbol
         self.tree = fixture()
         self.maybe = False
         self.irregular = []
+        self.used = set()  # defect models that made a difference (mode 'bug')
         self.renders = {}  # id -> list of expected absolute strings
         self.cwds = {}
         self.act_stdout = None
@@ -295,6 +302,8 @@ class State:
             raise Reject('validation', 'symbol %s has relativity %s' % (sym, pv.kind), pv.kind)
         if a == 'maybe':
             info.maybe = True
+        elif a is not True:
+            self.used.add(a)
 
     def _join(self, pv, name, info):
         """pv joined with a further FILE-NAME `name` (not starting with '/')"""
@@ -327,10 +336,18 @@ class State:
 
     def _eval(self, expr, site, phase, info):
         conf = SITES[site]
-        acc = accepted(site, phase)
+        acc = accepted(site, phase, self.mode == 'bug')
         rel, lead, frags = expr.get('rel'), expr.get('lead'), expr['name']
         name = self.name_value(frags)
         const = all(t == 'l' for t, _ in frags)
+        if any(t == 's' and v in self.str_pathref for t, v in frags):
+            # the FILE-NAME is an absolute path that was made from a path symbol by string concatenation.
+            # Destination: "a path symbol whose value is ... - however many symbol definitions it is routed through -
+            # is rejected before execution".  Reading argument: the manual does not say whether a string that
+            # refers to a path symbol may be (part of) a FILE-NAME -> resolution as written or rejection.
+            if conf['dest'] or rel is not None or lead is not None:
+                raise Reject('either', 'FILE-NAME made from a path symbol via a string symbol', 'strpath')
+            info.maybe = True
         if lead is not None:
             if lead not in self.paths:
                 raise Broken('undefined path symbol ' + lead)
@@ -353,6 +370,7 @@ class State:
                     return PV('abs', '', name)
                 info.irregular = 'abs-dest'
                 if self.mode == 'bug':
+                    self.used.add('KF-C12-2')
                     return PV('abs', '', name)
                 raise Reject('either', 'absolute FILE-NAME as destination')
             if conf['default'] is None:
@@ -366,6 +384,7 @@ class State:
             if is_abs(name):
                 info.irregular = 'abs+rel'
                 if self.mode == 'bug':
+                    self.used.add('KF-C12-1')
                     if const:
                         return PV('abs', '', name)
                     self._check_kind(base, acc, info, sym)
@@ -377,10 +396,11 @@ class State:
         if rel == 'here':
             if site != 'def':
                 raise Reject('syntax', '-rel-here outside def', 'here')
-            here = _j('{HOME}', INC_DIR if expr.get('_inc') else CASE_DIR)
+            here = _j('{HOME}', HERE_DIRS[int(expr.get('_inc') or 0)])
             if is_abs(name):
                 info.irregular = 'abs+rel'
                 if self.mode == 'bug':
+                    self.used.add('KF-C12-1')
                     return PV('abs', '', name)
                 return PV('abs', '', _j(here, self.real(name).lstrip('/')))
             return PV('abs', '', _j(here, name))
@@ -391,9 +411,12 @@ class State:
             raise Reject('syntax', 'option %s not accepted' % rel, rel)
         if a == 'maybe':
             info.maybe = True
+        elif a is not True:
+            self.used.add(a)
         if is_abs(name):
             info.irregular = 'abs+rel'
             if self.mode == 'bug':
+                self.used.add('KF-C12-1')
                 if const:
                     return PV('abs', '', name)
                 return PV(rel, '', name)
@@ -433,7 +456,7 @@ class State:
             raise Broken('copy destination %r exists' % (dst,))
         if dst[0] == src[0] and (dst[1] == src[1] or dst[1].startswith(src[1] + '/') or src[1] == ''):
             raise Broken('copy of %r into itself' % (src,))
-        if k == 'd' and src[0] == 'H' and src[1] in ('', CASE_DIR, INC_DIR):
+        if k == 'd' and src[0] == 'H' and src[1] in ('', CASE_DIR, INC_DIR, DEEP_DIR):
             raise Broken('%r holds the files of the test case itself' % (src,))
         self._mkdirs(self._parent(dst))
         if k == 'f':
@@ -462,10 +485,25 @@ class State:
 
     def _apply(self, i, op, k, ph, info):
         if k == 'defstr':
-            self.strs[op['name']] = op['val']
+            if op.get('pref'):
+                # def string S = "@[P]@<val>": the string holds the rendered (absolute) value of the path symbol P
+                pv = self.paths.get(op['pref'])
+                if pv is None or pv.kind == 'cd':
+                    raise Broken('string over path symbol: %r' % (op['pref'],))
+                self.strs[op['name']] = self.resolve(pv) + op['val']
+                self.str_pathref.add(op['name'])
+            elif op.get('sref'):
+                # def string S2 = "@[S1]@<val>"
+                if op['sref'] not in self.strs:
+                    raise Broken('undefined string symbol ' + op['sref'])
+                self.strs[op['name']] = self.strs[op['sref']] + op['val']
+                if op['sref'] in self.str_pathref:
+                    self.str_pathref.add(op['name'])
+            else:
+                self.strs[op['name']] = op['val']
         elif k == 'def':
             e = dict(op['expr'])
-            e['_inc'] = bool(op.get('inc'))
+            e['_inc'] = int(op.get('inc') or 0)
             self.paths[op['name']] = self.eval(e, 'def', ph, info)
         elif k == 'cd':
             pv = self.eval(op['expr'], 'cd', ph, info)
